@@ -273,8 +273,10 @@ pub fn c08(m: &mut Mon, w: &mut World, _rng: &mut Rng) {
                     continue;
                 }
                 if kp.get(c).cloned().unwrap_or(0) < *cnt {
-                    let d = format!("participant {p} merging all data knows less than the observer: missing {c}");
-                    m.report(w, None, "C08", "knowledge-differs", d);
+                    let f = fn_of.get(&c[1..]).cloned().unwrap_or_else(|| "?".into());
+                    let tag = if m.analysis.calls.get(&f).map(|ci| ci.multi).unwrap_or(false) { "knowledge-differs-last-instruction" } else { "knowledge-differs" };
+                    let d = format!("participant {p} merging all data knows less than the observer: missing {c} (result of {f})");
+                    m.report(w, None, "C08", tag, d);
                     return;
                 }
             }
